@@ -96,24 +96,48 @@ class ModelLRU:
         raise AssertionError(kind)
 
 
+# Key objects: the scenario names keys by small integers; the objects handed to the cache are made
+# afresh for every operation in the run's key style, so that two operations on "the same key" use
+# EQUAL BUT DISTINCT objects (a map compares keys with ==, never with `is`).
+KEY_STYLES = {
+    "int": (lambda k: k, lambda x: x),                                   # small ints: interned, identical
+    "tuple": (lambda k: tuple([k]), lambda x: x[0]),
+    "str": (lambda k: "key-%d" % k, lambda x: int(x[4:])),
+    "float": (lambda k: float(k) + 0.0, lambda x: int(x)),
+    "bigint": (lambda k: int("1000000") + k, lambda x: x - 1000000),
+}
+_KEYS = {"style": "int"}
+
+
+def mk(k):
+    return KEY_STYLES[_KEYS["style"]][0](k)
+
+
+def unk(x):
+    try:
+        return KEY_STYLES[_KEYS["style"]][1](x)
+    except Exception:  # noqa: BLE001 - not one of ours: report it as it is
+        return repr(x)
+
+
 def apply_real(cache, op, step=None):
     """Apply op to the real cache.  ``step`` is called between next() calls."""
     kind = op[0]
     try:
         if kind == "set":
-            cache[op[1]] = op[2]
+            cache[mk(op[1])] = op[2]
             return ("ok", None)
         if kind == "getitem":
-            return ("ok", cache[op[1]])
+            return ("ok", cache[mk(op[1])])
         if kind == "get":
-            return ("ok", cache.get(op[1]))
+            return ("ok", cache.get(mk(op[1])))
         if kind == "getd":
-            return ("ok", cache.get(op[1], op[2]))
+            return ("ok", cache.get(mk(op[1]), op[2]))
         if kind == "del":
-            del cache[op[1]]
+            del cache[mk(op[1])]
             return ("ok", None)
         if kind == "contains":
-            return ("ok", op[1] in cache)
+            return ("ok", mk(op[1]) in cache)
         if kind == "len":
             return ("ok", len(cache))
         if kind in LISTINGS:
@@ -126,7 +150,7 @@ def apply_real(cache, op, step=None):
                     x = next(it)
                 except StopIteration:
                     break
-                out.append(list(x) if kind == "items" else x)
+                out.append([unk(x[0]), x[1]] if kind == "items" else (x if kind == "values" else unk(x)))
             return ("ok", out)
     except KeyError:
         return ("err", "KeyError")
@@ -233,7 +257,8 @@ class C24:
             cls = rng.choice(["LRUCache", "ThreadSafeLRUCache"])
             nops = rng.randint(1, 60)
             ops = [self._gen_op(rng, nkeys, ("s", i)) for i in range(nops)]
-            return {"config": "seq", "cls": cls, "capacity": cap, "ops": ops}
+            return {"config": "seq", "cls": cls, "capacity": cap, "ops": ops,
+                    "key_style": rng.choice(sorted(KEY_STYLES))}
         cap = rng.randint(1, 4)
         nthreads = rng.weighted([(2, 6), (3, 6), (4, 4), (6, 2), (8, 2), (12, 1), (16, 1)])
         maxops = 8 if nthreads <= 3 else (5 if nthreads <= 6 else 2)
@@ -246,7 +271,8 @@ class C24:
         return {"config": "conc", "capacity": cap, "threads": threads, "prefill": prefill,
                 "switch_p": rng.choice([0.05, 0.3, 0.7, 1.0]),
                 "sched_seed": rng.randrange(1 << 30),
-                "granularity": rng.choice(["line", "opcode"])}
+                "granularity": rng.choice(["line", "opcode"]),
+                "key_style": rng.choice(sorted(KEY_STYLES))}
 
     def _gen_op(self, rng, nkeys, tag, profile="mixed"):
         k = rng.randrange(nkeys)
@@ -283,9 +309,13 @@ class C24:
 
     # -- execution ---------------------------------------------------------------
     def run(self, sc):
-        if sc["config"] == "seq":
-            return self._run_seq(sc)
-        return self._run_conc(sc)
+        _KEYS["style"] = sc.get("key_style", "int")
+        try:
+            if sc["config"] == "seq":
+                return self._run_seq(sc)
+            return self._run_conc(sc)
+        finally:
+            _KEYS["style"] = "int"
 
     def _run_seq(self, sc):
         res = new_result()
@@ -424,7 +454,7 @@ class C24:
                                 x = next(it)
                             except StopIteration:
                                 break
-                            seen.append(list(x) if kind == "items" else x)
+                            seen.append([unk(x[0]), x[1]] if kind == "items" else (x if kind == "values" else unk(x)))
                             if todo:
                                 iop = todo.pop(0)
                                 i0 = sim.next_seq()
@@ -551,6 +581,8 @@ class C24:
 
     # -- minimisation ------------------------------------------------------------
     def shrink(self, sc):
+        if sc.get("key_style", "int") != "int":
+            yield {**sc, "key_style": "int"}
         if sc["config"] == "seq":
             for ops in shrink_list(sc["ops"]):
                 yield {**sc, "ops": ops}
